@@ -153,7 +153,7 @@ PROPS = {
           "allowed and funded -> executed with the C07 amount. Non-trivial = the case has both forbidden and allowed conversions; distinct by (start, activation, counts).",
           quick=(8, 20), thorough=(16, 80)),
  "C14": P("TestC14", "exploration",
-          "rapid generates 2.0.2+ chains crossing 2-3 snapshot heights: 6-20 holders of 7 different assets (a quarter with exactly equal holdings), stake below or above the 4500x144 PEG cap (PEG priced 500-6000 USD when the conversions "
+          "rapid generates 2.0.2+ chains crossing 2-3 snapshot heights: 6-20 holders spread over all 61 non-PEG assets, the ends of the ticker list over-represented (a quarter with exactly equal holdings), stake below or above the 4500x144 PEG cap (PEG priced 500-6000 USD when the conversions "
           "execute), 0-4 movements between snapshots (out, to addresses absent from the previous snapshot, conversions between staked assets), snapshot heights without rates (half of them right after a graded block whose "
           "prices moved by up to 4%, so that 'the most recent earlier rates' are those of h-1), assets zeroed by the 25% band rule at the snapshot block. "
           "Oracle (reference model): stake_i = sum over non-PEG assets of floor(min(prev,cur)*rate/rate_USD); payout = stake (below the cap) or floor(stake*cap/total) + the dust for exactly one of the top stakers (resolved from "
